@@ -21,7 +21,9 @@ impl Float {
         let mut top = z;
         let mut sum = Self::zero(sem, false);
         let mut prev = Self::one(sem, true);
-        for i in 0..50 {
+        // Enough terms for any precision; the loop stops when the sum converges.
+        let terms = 50.max(sem.get_precision() as u64);
+        for i in 0..terms {
             if prev == sum {
                 break; // Stop if we are not making progress.
             }
@@ -112,7 +114,10 @@ impl Float {
 
         let mut sum = Self::zero(sem, false);
         let mut prev = Self::one(sem, true);
-        for k in 1..50 {
+        // The k-th term is x^k/k! with x <= 1: 'precision' terms are enough for
+        // any precision; the loop stops when the sum converges.
+        let terms = 50.max(sem.get_precision() as u64);
+        for k in 1..terms {
             if prev == sum {
                 break; // Stop if we are not making progress.
             }
